@@ -25,6 +25,7 @@ type relaygenSys struct {
 	rnd        *scriptRand
 	min, max   int
 	open       map[string]io.Closer // "udp/61100" -> socket
+	advOf      map[string]net.Addr  // "tcp/61100" -> the advertised address the generator returned for it
 	relayIP    net.IP
 	addr       string
 	lastResult Obs
@@ -110,7 +111,8 @@ func newRelaygenSys(meta Meta, _ int64, init any) (Sys, error) {
 	s.min, _ = strconv.Atoi(meta.Extra["MinPort"])
 	s.max, _ = strconv.Atoi(meta.Extra["MaxPort"])
 	retries, _ := strconv.Atoi(meta.Extra["MaxRetries"])
-	s.addr, s.relayIP = "127.0.0.1", net.IPv4(203, 0, 113, 7)
+	// (127.0.0.2: another address of this host, so that a connection can leave from the relayed address: Conn)
+	s.addr, s.relayIP = "127.0.0.1", net.IPv4(127, 0, 0, 2)
 	if s.fam == 6 {
 		s.addr, s.relayIP = "::1", net.ParseIP("2001:db8::7")
 	}
@@ -200,8 +202,49 @@ func (s *relaygenSys) alloc(proto string, req int) Obs {
 		return o
 	}
 	s.open[k] = sock
+	if s.advOf == nil {
+		s.advOf = map[string]net.Addr{}
+	}
+	s.advOf[k] = adv // (the very value the generator returned: the server keeps it as the allocation's relayed address)
 
 	return o
+}
+
+// conn is AllocateConn from the relayed address of the TCP listener at key k toward a listening peer on this host.
+func (s *relaygenSys) conn(k string) (Obs, error) {
+	adv := s.advOf[k]
+	if adv == nil { // a listener the harness bound itself to re-align after a listed finding: no generator behind it
+		return Obs{"k": "conn", "skip": true}, nil
+	}
+	peer, err := net.Listen("tcp4", "127.0.0.1:0")
+	if err != nil {
+		return nil, fmt.Errorf("harness: %w", err)
+	}
+	defer peer.Close() //nolint:errcheck
+	go func() {
+		if c, err := peer.Accept(); err == nil {
+			_ = c.Close()
+		}
+	}()
+	before := adv.String()
+	c, cerr := s.gen.AllocateConn(turn.AllocateConnConfig{Network: "tcp4", LocalAddr: adv, RemoteAddr: peer.Addr()})
+	o := Obs{"k": "conn", "ok": cerr == nil, "err": fmt.Sprint(cerr), "before": before, "after": adv.String()}
+	if cerr == nil {
+		_, lp := ipPort(c.LocalAddr())
+		o["lport"] = lp
+		_ = c.Close()
+	}
+	aip, ap := ipPort(adv)
+	o["advport"] = ap
+	o["adv"] = "other:" + aip.String()
+	switch {
+	case s.kind != "none" && aip.Equal(s.relayIP):
+		o["adv"] = "relay"
+	case s.kind == "none" && aip.Equal(net.ParseIP(s.addr)):
+		o["adv"] = "local"
+	}
+
+	return o, nil
 }
 
 func ipPort(a net.Addr) (net.IP, int) {
@@ -249,8 +292,16 @@ func (s *relaygenSys) Do(a map[string]any, _ func()) ([]Obs, error) {
 			k := fmt.Sprintf("%s/%d", proto, toInt(o["port"]))
 			s.open[proto+"/-1"] = s.open[k]
 			delete(s.open, k)
+			s.advOf[proto+"/-1"] = s.advOf[k]
 			o["anyport"] = o["port"]
 			o["port"] = -1
+		}
+
+		return []Obs{o}, nil
+	case "Conn":
+		o, err := s.conn(fmt.Sprintf("tcp/%d", toInt(a["port"])))
+		if err != nil {
+			return nil, err
 		}
 
 		return []Obs{o}, nil
@@ -272,6 +323,23 @@ func (s *relaygenSys) Check(e Edge, obs []Obs) []Mismatch {
 	var ms []Mismatch
 	for _, x := range e.O {
 		m, _ := x.(map[string]any)
+		if m["k"] == "conn" && len(obs) == 1 {
+			o := obs[0]
+			desc := fmt.Sprintf("%s generator, %v", s.kind, canon(e.A))
+			if sk, _ := o["skip"].(bool); sk {
+				continue
+			}
+			if ok, _ := o["ok"].(bool); !ok {
+				ms = append(ms, Mismatch{"relaygen", desc + fmt.Sprintf(": AllocateConn from the relayed address failed: %v", o["err"])})
+
+				continue
+			}
+			if o["adv"] != m["adv"] || o["before"] != o["after"] {
+				ms = append(ms, Mismatch{"relaygen.adv", desc + fmt.Sprintf(": the allocation's advertised relayed address was %v before the connection and is %v after it", o["before"], o["after"])})
+			}
+
+			continue
+		}
 		if m["k"] != "alloc" || len(obs) != 1 {
 			continue
 		}
